@@ -1,4 +1,4 @@
-(* E5 — model of the message routing walk: node.InitNodeContextHierarchy (node/node.go:79-131, the part
+(* E5 — model of the message routing walk: node.InitNodeContextHierarchy (node/node.go:76-128, the part
    that decides which nodes exist), Executor.deliverMessage / deliverMessageToNode
    (executor/message.go:76-108), ContextAware.Subscribe / AcceptsMessage (fbcontext/fbcontext.go:86-99).
    Definitions only. *)
@@ -34,7 +34,7 @@ Fixpoint init_ctx (n : rnode) : option ctx :=
                  | k :: l' => match init_ctx k with Some c => c :: go l' | None => go l' end
                  end) kids))
   end.
-Fixpoint init_roots (l : list rnode) : list ctx :=      (* executor.go:49-55 *)
+Fixpoint init_roots (l : list rnode) : list ctx :=      (* executor/executor.go:49-55 *)
   match l with
   | [] => []
   | k :: l' => match init_ctx k with Some c => c :: init_roots l' | None => init_roots l' end
